@@ -117,6 +117,10 @@ func (nfs *Nfs) NFSPROC3_SETATTR(args nfstypes.SETATTR3args) nfstypes.SETATTR3re
 			errRet(op, &reply.Status, nfstypes.NFS3ERR_INVAL)
 			return reply
 		}
+		if uint64(args.New_attributes.Size.Size) > inode.MaxFileSize() {
+			errRet(op, &reply.Status, nfstypes.NFS3ERR_FBIG)
+			return reply
+		}
 		shrink := ip.Resize(op.Atxn, uint64(args.New_attributes.Size.Size))
 		if shrink {
 			nfs.shrinkst.StartShrinker(ip.Inum)
